@@ -1,0 +1,114 @@
+//! Verification hooks, compiled only with `--cfg chess_verif`.
+//!
+//! Everything here is inert unless a callback is installed by an external harness:
+//! `emit` and `transient_board` dispatch to the installed callback and are no-ops otherwise.
+use std::sync::{Arc, RwLock};
+
+use crate::board::Board;
+use crate::chess_move::chess_move::ChessMove;
+
+#[derive(Clone, Copy, Debug, PartialEq, Eq)]
+pub enum Kind {
+    /// a root-move task of `alpha_beta_search` starts (before its first shared access)
+    TaskBegin,
+    /// a root-move task has computed its score
+    TaskEnd,
+    /// `alpha_beta_minimax` is about to read the shared result cache
+    Probe,
+    /// the outcome of that read (`value` is `Some` on a hit)
+    ProbeResult,
+    /// `alpha_beta_minimax` is about to write the shared result cache
+    Store,
+}
+
+#[derive(Clone, Copy, Debug)]
+pub struct Event {
+    pub kind: Kind,
+    /// root move identity (bitboards) for TaskBegin / TaskEnd, otherwise 0
+    pub from: u64,
+    pub to: u64,
+    /// 0 = no promotion, otherwise 1 + `Piece as u8`
+    pub promo: u8,
+    pub hash: u64,
+    pub depth: u8,
+    pub maximizing: bool,
+    pub alpha: i16,
+    pub beta: i16,
+    pub value: Option<i16>,
+}
+
+pub type Callback = Arc<dyn Fn(&Event) + Send + Sync>;
+pub type BoardCallback = Arc<dyn Fn(&Board) + Send + Sync>;
+
+static CALLBACK: RwLock<Option<Callback>> = RwLock::new(None);
+static BOARD_CALLBACK: RwLock<Option<BoardCallback>> = RwLock::new(None);
+
+pub fn install(cb: Option<Callback>) {
+    *CALLBACK.write().unwrap() = cb;
+}
+
+pub fn install_board_observer(cb: Option<BoardCallback>) {
+    *BOARD_CALLBACK.write().unwrap() = cb;
+}
+
+#[inline]
+pub fn emit(ev: Event) {
+    let cb = CALLBACK.read().unwrap().clone();
+    if let Some(cb) = cb {
+        cb(&ev);
+    }
+}
+
+/// Called with the transient board between a move and its undo inside move generation.
+#[inline]
+pub fn transient_board(board: &Board) {
+    let cb = BOARD_CALLBACK.read().unwrap().clone();
+    if let Some(cb) = cb {
+        cb(board);
+    }
+}
+
+pub fn promo_code(m: &ChessMove) -> u8 {
+    match m {
+        ChessMove::PawnPromotion(p) => p.promote_to_piece() as u8 + 1,
+        _ => 0,
+    }
+}
+
+pub fn task_event(kind: Kind, m: &ChessMove, depth: u8, maximizing: bool, value: Option<i16>) -> Event {
+    Event {
+        kind,
+        from: m.from_square().0,
+        to: m.to_square().0,
+        promo: promo_code(m),
+        hash: 0,
+        depth,
+        maximizing,
+        alpha: 0,
+        beta: 0,
+        value,
+    }
+}
+
+#[allow(clippy::too_many_arguments)]
+pub fn node_event(
+    kind: Kind,
+    board: &Board,
+    depth: u8,
+    maximizing: bool,
+    window: (i16, i16),
+    value: Option<i16>,
+) -> Event {
+    Event {
+        kind,
+        from: 0,
+        to: 0,
+        promo: 0,
+        hash: board.current_position_hash(),
+        depth,
+        maximizing,
+        alpha: window.0,
+        beta: window.1,
+        value,
+    }
+}
